@@ -195,6 +195,19 @@ def random_history(rng):
     return steps
 
 
+def norm_steps(line):
+    """what the property fixes per step: the result (Incomplete without its Needed), the in-progress flag, and the buffer
+    length only while defragmenting (what an idle parser keeps in its buffer is an implementation detail)"""
+    out = []
+    for st in line.split(' ; '):
+        p = st.split(' | ')
+        if len(p) != 3:
+            out.append(st); continue
+        r = 'incomplete' if p[0].startswith('incomplete') else p[0]
+        out.append('%s | %s | %s' % (r, p[1], p[2] if p[1] == '1' else '-'))
+    return ' ; '.join(out)
+
+
 def run(ctx):
     core.build_harness()
     ok = common.lean_step(ctx, MODULES)
@@ -209,7 +222,10 @@ def run(ctx):
     nv = 0
     for h, ln, a, b in zip(hists, lines, impl, model):
         ra, side = core.split_side(a)
-        exp = ' ; '.join(h.exp)
+        ra_full = ra
+        ra = norm_steps(ra)
+        b = norm_steps(b)
+        exp = norm_steps(' ; '.join(h.exp))
         fam = 'oversize_stream' if h in big else 'split_histories'
         ctx.count(fam, 'match' if ra == exp else 'MISMATCH')
         for e in h.exp:
@@ -224,7 +240,7 @@ def run(ctx):
                 sub = 'rp ' + ' '.join(h.steps[:k + 1])
                 ctx.violation('history step %d: implementation "%s", accumulate-then-parse demands "%s"' % (
                     k, (ia[k] if k < len(ia) else '<missing>')[:200], (ie[k] if k < len(ie) else '<missing>')[:200]),
-                    {'lines': [sub if len(sub) < 200000 else ln], 'expect': ' ; '.join(h.exp[:k + 1]) if len(sub) < 200000 else exp, 'impl_step': ia[k] if k < len(ia) else None},
+                    {'lines': [sub if len(sub) < 200000 else ln], 'expect_steps': ' ; '.join(h.exp[:k + 1])[:4000], 'impl_step': ia[k] if k < len(ia) else None},
                     key='hist:' + framework.shape(ie[k] if k < len(ie) else '')[:60])
         if b != exp:
             ctx.cov['model_vs_oracle_failures'] += 1
@@ -268,6 +284,8 @@ def run(ctx):
 def proj_step(st):
     """per step: ok value | incomplete | error Tag | error TooLarge | failure NonEmpty | rejected ; in-progress flag ; buffer length"""
     parts = st.split(' | ')
+    if len(parts) == 3 and parts[1] != '1':
+        parts = [parts[0], parts[1], '-']
     r = parts[0]
     if r.startswith('ok ') or r in ('error Tag', 'error TooLarge', 'failure NonEmpty', 'reset', 'panic'):
         p = r
